@@ -1,6 +1,6 @@
 SPECIFICATION TraceSpec
 CONSTANTS
-  Readers = {"r1", "r2", "r3", "fin"}
+  Readers = {"r1", "r2", "r3", "fin", "ro"}
   NWriters = 2
   Layouts <- LayoutsAll
   TornPrefixes <- AllPrefixes
@@ -11,6 +11,7 @@ CONSTANTS
   ReaderRestores = TRUE
   AllowDeleteFresh = TRUE
   ReaderCrash = TRUE
+  ROReaders = {"ro"}
 CONSTRAINT HighWater
 POSTCONDITION TraceAccepted
 CHECK_DEADLOCK FALSE
